@@ -69,34 +69,40 @@ Lemma backoff_final : forall w ls s, run (init w) ls = Some s ->
   forall pre1 c pre2, pre = pre1 ++ HFail c :: pre2 -> c <> ERebalance -> In HBackoff pre1.
 Proof. intros w ls s R. apply mon_backoff_spec. eapply backoff_holds; eauto. Qed.
 
-Definition leave_on_close_full : Prop :=
-  forall w ls s, run (init w) ls = Some s ->
+(* every run exit holding member id m is preceded, since the last JoinGroup request, by a leave
+   attempt for m; Close returns only after run exited *)
+Lemma leave_final : forall w ls s, run (init w) ls = Some s ->
   (forall post x m pre, hist s = post ++ HRunExit x (Some m) :: pre ->
      exists pre1 e pre2, pre = pre1 ++ e :: pre2 /\ ev_is_leave m e = true /\ forall m', ~ In (HJoinReq m') pre1)
   /\ (forall post c pre, hist s = post ++ HCloseRet c :: pre -> exists x m, In (HRunExit x m) pre).
+Proof. intros w ls s R. apply mon_leave_full_spec. eapply leave_full_holds; eauto. Qed.
 
-Lemma leave_final_partial : forall w ls s, run (init w) ls = Some s ->
-  (forall post x m pre, hist s = post ++ HRunExit x (Some m) :: pre ->
-     x = XOffer ERebalance \/
-     exists pre1 e pre2, pre = pre1 ++ e :: pre2 /\ ev_is_leave m e = true /\ forall m', ~ In (HJoinReq m') pre1)
-  /\ (forall post c pre, hist s = post ++ HCloseRet c :: pre -> exists x m, In (HRunExit x m) pre).
-Proof. intros w ls s R. apply mon_leave_spec. eapply leave_holds; eauto. Qed.
-
-Lemma leave_on_close_full_false : ~ leave_on_close_full.
+(* hence: when Close returns, run has exited, and if it exited holding m the leave attempt for m
+   lies before that Close return *)
+Lemma leave_before_close_return : forall w ls s, run (init w) ls = Some s ->
+  forall post c pre, hist s = post ++ HCloseRet c :: pre ->
+  exists x om, In (HRunExit x om) pre /\
+    (forall m, om = Some m -> exists e, In e pre /\ ev_is_leave m e = true).
 Proof.
-  intro F. destruct leave_full_refuted as (ls & s & R & _ & _ & _ & _ & M).
-  assert (T : mon_leave_full (hist s) = true).
-  { apply mon_leave_full_spec. exact (F 0 ls s R). }
-  congruence.
+  intros w ls s R post c pre E.
+  destruct (leave_final w ls s R) as [L C].
+  destruct (C post c pre E) as (x & om & I).
+  exists x, om. split; [exact I|]. intros m Em. subst om.
+  apply in_split in I. destruct I as (p1 & p2 & Ep).
+  assert (E2 : hist s = (post ++ HCloseRet c :: p1) ++ HRunExit x (Some m) :: p2).
+  { rewrite E, Ep, <- app_assoc. reflexivity. }
+  destruct (L _ x m p2 E2) as (q1 & e & q2 & Eq & Le & _).
+  exists e. split; [|exact Le]. rewrite Ep, Eq.
+  apply in_or_app. right. right. apply in_or_app. right. left. reflexivity.
 Qed.
 
 Lemma monitors_final : forall w ls s, run (init w) ls = Some s ->
   mon_one_live (hist s) = true /\ mon_heartbeat (hist s) = true /\
-  mon_backoff (hist s) = true /\ mon_leave (hist s) = true.
+  mon_backoff (hist s) = true /\ mon_leave_full (hist s) = true.
 Proof.
   intros w ls s R. repeat split.
   - eapply one_live_holds; eauto.
   - eapply heartbeat_holds; eauto.
   - eapply backoff_holds; eauto.
-  - eapply leave_holds; eauto.
+  - eapply leave_full_holds; eauto.
 Qed.
